@@ -533,4 +533,20 @@ theorem possibleTypes_nodup_aux (s : Schema) (supplied : List String) (hnames : 
       · right; simp [h1, TypeDef.name]
     | _ => left; rfl
 
+theorem mem_implementers (defs : List TypeDef) (iface o : String) :
+    o ∈ implementers defs iface ↔ ∃ ifaces fs ito d, TypeDef.object o ifaces fs ito d ∈ defs ∧ iface ∈ ifaces := by
+  unfold implementers
+  simp only [List.mem_flatMap]
+  constructor
+  · rintro ⟨td, htd, hm⟩
+    cases td with
+    | object n ifaces fs ito d =>
+      simp only [List.mem_map, List.mem_filter, beq_iff_eq] at hm
+      obtain ⟨i, ⟨hi, rfl⟩, rfl⟩ := hm
+      exact ⟨ifaces, fs, ito, d, htd, hi⟩
+    | _ => simp at hm
+  · rintro ⟨ifaces, fs, ito, d, htd, hi⟩
+    refine ⟨_, htd, ?_⟩
+    exact List.mem_map.mpr ⟨iface, List.mem_filter.mpr ⟨hi, by simp⟩, rfl⟩
+
 end GqlModel.Introspection
